@@ -66,6 +66,14 @@ class KgenRun:
         def on(r):
             vc.log(f'  {r.harness:70s} {r.status:8s} {r.seconds:6.1f}s {r.failed_checks[:1]}')
         self.results = vc.kani_run_many(self.crate_dir, names, self.target, timeout=timeout, jobs=jobs, on_result=on)
+        # an unwinding assertion that fails means the bound was too small for that harness: try once with a larger one
+        again = [h for h in harnesses if self.results[h['name']].status == 'unwind']
+        for h in again:
+            u2 = 2 * h.get('unwind', 8) + 4
+            r = vc.kani_run(self.crate_dir, h['name'], self.target, timeout, extra=['--unwind', str(u2)])
+            r.retried_unwind = u2
+            on(r)
+            self.results[h['name']] = r
         return time.time() - t0
 
 
